@@ -9,15 +9,15 @@ func Run(c *fw.Ctx) {
 	// directed: one witness per open finding, independent of seed and tier
 	c.Cases("directed", len(replay), runReplay)
 	// (a) closed-form estimators
-	c.Cases("closed.scalar", c.N(6000, 150000), func(cs *fw.Case) { runClosedScalar(cs, cs.R) })
-	c.Cases("closed.wrapper", c.N(2000, 50000), func(cs *fw.Case) { runClosedWrapper(cs, cs.R) })
-	c.Cases("closed.vector", c.N(2000, 50000), func(cs *fw.Case) { runClosedMvn(cs, cs.R) })
-	c.Cases("numeric", c.N(300, 6000), func(cs *fw.Case) { runNumeric(cs, cs.R) })
+	c.Cases("closed.scalar", c.N(18000, 300000), func(cs *fw.Case) { runClosedScalar(cs, cs.R) })
+	c.Cases("closed.wrapper", c.N(6000, 100000), func(cs *fw.Case) { runClosedWrapper(cs, cs.R) })
+	c.Cases("closed.vector", c.N(6000, 100000), func(cs *fw.Case) { runClosedMvn(cs, cs.R) })
+	c.Cases("numeric", c.N(900, 12000), func(cs *fw.Case) { runNumeric(cs, cs.R) })
 	// (b) EM trajectories
-	c.Cases("em.mixture.scalar", c.N(800, 20000), func(cs *fw.Case) { runEmScalarMixture(cs, cs.R) })
-	c.Cases("em.mixture.vector", c.N(400, 8000), func(cs *fw.Case) { runEmVectorMixture(cs, cs.R) })
-	c.Cases("em.hmm", c.N(600, 15000), func(cs *fw.Case) { runEmHmm(cs, cs.R, nil) })
+	c.Cases("em.mixture.scalar", c.N(2400, 40000), func(cs *fw.Case) { runEmScalarMixture(cs, cs.R) })
+	c.Cases("em.mixture.vector", c.N(1200, 16000), func(cs *fw.Case) { runEmVectorMixture(cs, cs.R) })
+	c.Cases("em.hmm", c.N(1800, 30000), func(cs *fw.Case) { runEmHmm(cs, cs.R, nil) })
 	// the option OptimizeTransitions=false of the Baum-Welch driver (directed)
-	c.Cases("em.hmm.options", c.N(40, 400), func(cs *fw.Case) { f := false; runEmHmm(cs, cs.R, &f) })
-	c.Cases("em.nested", c.N(200, 4000), func(cs *fw.Case) { runEmNested(cs, cs.R) })
+	c.Cases("em.hmm.options", c.N(60, 600), func(cs *fw.Case) { f := false; runEmHmm(cs, cs.R, &f) })
+	c.Cases("em.nested", c.N(600, 8000), func(cs *fw.Case) { runEmNested(cs, cs.R) })
 }
